@@ -53,7 +53,7 @@ Lemma crash_safe_commit_l c ver typ rid old ws puts removed reach inl0 k :
   (forall r t, visible r t (c_rk c) = true -> visible r t (c_rk c1) = true) /\
   fst (retry c1 o) = fst (run_all c o) /\ cequiv (snd (retry c1 o)) (snd (run_all c o)).
 Proof.
-  intros o I. subst o. unfold retry, reopen, run_all, run_until, plan.
+  intros o I. subst o. unfold retry, reopen, run_all, run_until, plan, plan_orig.
   destruct (s_commit (b_meta (c_b c)) ver typ rid old ws) as [e m'] eqn:SC.
   destruct e; cbn [snd length]; try (intros K0; exfalso; cbn in K0; lia).
   destruct (has_rid rid (roots_at (b_meta (c_b c)) ver)) eqn:HR; cbn [snd length]; [intros K0; exfalso; cbn in K0; lia|].
@@ -82,7 +82,7 @@ Lemma crash_safe_finalize_l c ver rids k :
      forall n, In n (a_reach (aux_get v r (b_aux (c_b c)))) -> visible n v (b_store (c_b c1)) = true) /\
   fst (retry c1 o) = fst (run_all c o) /\ cequiv (snd (retry c1 o)) (snd (run_all c o)).
 Proof.
-  intros o I. subst o. unfold retry, reopen, run_all, run_until, plan.
+  intros o I. subst o. unfold retry, reopen, run_all, run_until, plan, plan_orig.
   destruct (s_finalize (b_meta (c_b c)) ver rids) as [e m'] eqn:SF.
   destruct e; cbn [snd length]; try (intros K0; exfalso; cbn in K0; lia).
   intros K. destruct I as [IR IM].
@@ -117,9 +117,9 @@ Definition h_prune_crash : list op :=
    the earliest retained version *)
 Lemma crash_safe_prune_refuted_l :
   let c := c_run cdb0 h_prune_crash in
-  fst (run_all c (OPrune 1)) = EOk /\
-  let c1 := reopen (run_until 1 c (OPrune 1)) in
-  fst (retry c1 (OPrune 1)) = ERootNotFound /\ snd (retry c1 (OPrune 1)) = c1 /\
+  fst (run_all_orig c (OPrune 1)) = EOk /\
+  let c1 := reopen (run_until_orig 1 c (OPrune 1)) in
+  fst (retry_orig c1 (OPrune 1)) = ERootNotFound /\ snd (retry_orig c1 (OPrune 1)) = c1 /\
   d_earliest (b_meta (c_b c1)) = 1 /\ inv (c_b c) /\ prune_safe (c_b c) 1 = true.
 Proof.
   cbv zeta. split; [vm_compute; reflexivity|]. split; [vm_compute; reflexivity|].
@@ -132,9 +132,9 @@ Qed.
 (* the small repair (skip lone roots whose root-node key is already gone) on the same crash *)
 Lemma crash_prune_alt_witness :
   let c := c_run cdb0 h_prune_crash in
-  let c1 := reopen (run_until_alt 1 c (OPrune 1)) in
-  fst (run_all_alt c1 (OPrune 1)) = EOk /\ snd (run_all_alt c1 (OPrune 1)) = snd (run_all_alt c (OPrune 1)) /\
-  snd (run_all_alt c (OPrune 1)) = snd (run_all c (OPrune 1)).
+  let c1 := reopen (run_until 1 c (OPrune 1)) in
+  fst (retry c1 (OPrune 1)) = EOk /\ snd (retry c1 (OPrune 1)) = snd (run_all c (OPrune 1)) /\
+  snd (run_all c (OPrune 1)) = snd (run_all_orig c (OPrune 1)).
 Proof. vm_compute. repeat split; reflexivity. Qed.
 
 (* ---------------- Prune with the repair, all states ---------------- *)
@@ -172,17 +172,17 @@ Qed.
 Lemma crash_safe_prune_alt_l c ver k :
   let o := OPrune ver in
   inv (c_b c) -> rk_inv c -> prune_safe (c_b c) ver = true ->
-  (k < length (snd (plan_alt c o)))%nat ->
-  let c1 := reopen (run_until_alt k c o) in
+  (k < length (snd (plan c o)))%nat ->
+  let c1 := reopen (run_until k c o) in
   b_meta (c_b c1) = b_meta (c_b c) /\ b_aux (c_b c1) = b_aux (c_b c) /\
   (* every listed root of every later version stays readable (nodes and root-node key) *)
   (forall v r, ver < v -> has_rid r (roots_at (b_meta (c_b c)) v) = true ->
      visible r v (c_rk c1) = true /\
      forall n, In n (a_reach (aux_get v r (b_aux (c_b c)))) -> visible n v (b_store (c_b c1)) = true) /\
   (* the retry succeeds and reaches exactly the uninterrupted state *)
-  fst (run_all_alt c1 o) = EOk /\ snd (run_all_alt c1 o) = snd (run_all_alt c o).
+  fst (run_all c1 o) = EOk /\ snd (run_all c1 o) = snd (run_all c o).
 Proof.
-  intros o I RK PS. subst o. unfold reopen, run_all_alt, run_until_alt, plan_alt.
+  intros o I RK PS. subst o. unfold reopen, run_all, run_until, plan.
   destruct (s_prune_check (b_meta (c_b c)) ver) eqn:PC; cbn [snd length]; try (intros K0; exfalso; cbn in K0; lia).
   assert (LV : live_lone c ver = lone_roots (c_b c) ver).
   { apply live_all. apply forallb_forall. intros r Hr. unfold lone_roots in Hr. apply filter_In in Hr as [Hr _].
@@ -250,7 +250,7 @@ Qed.
 (* ---------------- rk_inv and inv hold after every history ---------------- *)
 Lemma rk_inv_step c o : inv (c_b c) -> rk_inv c -> rk_inv (snd (run_all c o)).
 Proof.
-  intros [_ IM] RK. unfold run_all, plan.
+  intros [_ IM] RK. unfold run_all, plan, plan_orig.
   destruct o as [ver typ rid old ws puts removed reach inl0|ver rids|ver].
   - destruct (s_commit (b_meta (c_b c)) ver typ rid old ws) as [e m'] eqn:SC.
     destruct e; cbn [snd apply_steps fold_left]; try exact RK.
@@ -279,7 +279,7 @@ Proof.
     + rewrite HV in Hh. eapply has_rid_filter. exact Hh.
     + rewrite (HO v NE) in Hh. exact Hh.
   - destruct (s_prune_check (b_meta (c_b c)) ver) eqn:PC; cbn [snd apply_steps fold_left]; try exact RK.
-    destruct (c_visit_all c ver (lone_roots (c_b c) ver)); cbn [snd apply_steps fold_left]; try exact RK.
+    destruct (c_visit_all c ver (live_lone c ver)); cbn [snd apply_steps fold_left]; try exact RK.
     intros v r Hev Hh. cbn [apply_step c_b c_rk b_meta s_prune_do d_earliest] in *.
     assert (EV : ver = d_earliest (b_meta (c_b c))).
     { unfold s_prune_check in PC. destruct (d_last (b_meta (c_b c))); [|discriminate].
@@ -306,7 +306,7 @@ Lemma run_all_b c o :
   rk_inv c ->
   fst (run_all c o) = fst (b_step (c_b c) o) /\ c_b (snd (run_all c o)) = snd (b_step (c_b c) o).
 Proof.
-  intros RK. unfold run_all, plan. destruct o as [ver typ rid old ws puts removed reach inl0|ver rids|ver]; cbn [b_step].
+  intros RK. unfold run_all, plan, plan_orig. destruct o as [ver typ rid old ws puts removed reach inl0|ver rids|ver]; cbn [b_step].
   - unfold b_commit. destruct (s_commit (b_meta (c_b c)) ver typ rid old ws) as [e m'] eqn:SC.
     destruct e; cbn [fst snd apply_steps fold_left]; try (split; reflexivity).
     destruct (has_rid rid (roots_at (b_meta (c_b c)) ver)); cbn [negb fst snd apply_steps fold_left apply_step c_b b_meta b_aux b_store];
@@ -314,16 +314,18 @@ Proof.
   - unfold b_finalize. destruct (s_finalize (b_meta (c_b c)) ver rids) as [e m'] eqn:SF.
     destruct e; cbn [fst snd apply_steps fold_left apply_step c_b b_meta b_aux b_store]; split; reflexivity.
   - unfold b_prune. destruct (s_prune_check (b_meta (c_b c)) ver) eqn:PC; cbn [fst snd apply_steps fold_left]; try (split; reflexivity).
-    rewrite c_visit_all_eq.
-    + destruct (visit_all (c_b c) ver (lone_roots (c_b c) ver));
-        cbn [fst snd apply_steps fold_left apply_step c_b b_meta b_aux b_store]; split; reflexivity.
-    + intros r Hr. unfold lone_roots in Hr. apply filter_In in Hr as [Hr _].
+    assert (KV : forall r, In r (lone_roots (c_b c) ver) -> visible (r_id r) ver (c_rk c) = true).
+    { intros r Hr. unfold lone_roots in Hr. apply filter_In in Hr as [Hr _].
       assert (EV : d_earliest (b_meta (c_b c)) <= ver).
       { unfold s_prune_check in PC. destruct (d_last (b_meta (c_b c))); [|discriminate].
         destruct (n <? ver); [discriminate|].
         destruct (negb (ver =? d_earliest (b_meta (c_b c)))) eqn:E2; [discriminate|].
         apply negb_false_iff in E2. apply N.eqb_eq in E2. lia. }
-      unfold visible. rewrite (RK ver (r_id r) EV (in_has_rid r _ Hr)). reflexivity.
+      unfold visible. rewrite (RK ver (r_id r) EV (in_has_rid r _ Hr)). reflexivity. }
+    rewrite (live_all c ver) by (apply forallb_forall; exact KV).
+    rewrite (c_visit_all_eq c ver _ KV).
+    destruct (visit_all (c_b c) ver (lone_roots (c_b c) ver));
+      cbn [fst snd apply_steps fold_left apply_step c_b b_meta b_aux b_store]; split; reflexivity.
 Qed.
 
 Lemma rk_inv0 : rk_inv cdb0.
